@@ -621,6 +621,11 @@ static void report_unexpected_call(TestReporter *test_reporter, RecordedExpectat
 }
 
 void clear_mocks(void) {
+    if (successfully_mocked_calls != NULL) {
+        destroy_cgreen_vector(successfully_mocked_calls);
+        successfully_mocked_calls = NULL;
+    }
+
     if (global_expectation_queue != NULL) {
         destroy_cgreen_vector(global_expectation_queue);
         global_expectation_queue = NULL;
